@@ -18,7 +18,7 @@ from simv.tape import Tape
 
 ID = "C03"
 LEVEL = "exploration"
-QUICK_RUNS = 3000
+QUICK_RUNS = 6000
 CHUNK = 20
 RULE = ("seed -> request (as C01); 1..all of its positions (resolver results, list items, attributes/keys read by default "
         "resolvers) are replaced by values drawn from an adversarial universe (every JSON shape, bool/int/float at and beyond "
